@@ -1,0 +1,195 @@
+//go:build verif
+
+// Contracts for the deductive verifier in /verif (gocv). Comment-only: with or without the build tag the
+// compiled package is unchanged.
+
+package codec
+
+// ---- spec functions -------------------------------------------------------------------------
+
+//@ spec func cmpU(v int64) uint64 { return mathint(v) + 9223372036854775808 }
+
+// be64(b, at): the number whose big-endian image is the 8 bytes of b starting at index at.
+//@ spec func be64(b []byte, at int) uint64 {
+//@   return mathint(b[at])*72057594037927936 + mathint(b[at+1])*281474976710656 + mathint(b[at+2])*1099511627776 + mathint(b[at+3])*4294967296 +
+//@          mathint(b[at+4])*16777216 + mathint(b[at+5])*65536 + mathint(b[at+6])*256 + mathint(b[at+7]) }
+
+// keeps(r, b): r starts with the old contents of b
+//@ spec func keeps(r []byte, b []byte) bool { return len(r) >= len(b) && forall i int :: 0 <= i && i < len(b) ==> r[i] == old(b[i]) }
+
+//@ spec func inv64(u uint64) uint64 { return 18446744073709551615 - mathint(u) }
+
+// ---- fixed width ------------------------------------------------------------------------------
+
+//@ func EncodeIntToCmpUint
+//@   prop C19
+//@   replay: auto
+//@   ensures result == cmpU(v)
+
+//@ func DecodeCmpUintToInt
+//@   prop C19
+//@   replay: auto
+//@   ensures cmpU(result) == u
+
+//@ func EncodeInt
+//@   prop C19
+//@   replay: auto
+//@   ensures len: len(result) == len(b) + 8
+//@   ensures prefix: keeps(result, b)
+//@   ensures image: be64(result, len(b)) == cmpU(v)
+
+//@ func EncodeIntDesc
+//@   prop C19
+//@   replay: auto
+//@   ensures len: len(result) == len(b) + 8
+//@   ensures prefix: keeps(result, b)
+//@   ensures image: be64(result, len(b)) == inv64(cmpU(v))
+
+//@ func DecodeInt
+//@   prop C19
+//@   replay: auto
+//@   safety
+//@   ensures short: len(b) < 8 ==> result2 != nil
+//@   ensures ok: len(b) >= 8 ==> result2 == nil && result0 == b[8:] && be64(b, 0) == cmpU(result1)
+
+//@ func DecodeIntDesc
+//@   prop C19
+//@   replay: auto
+//@   safety
+//@   ensures short: len(b) < 8 ==> result2 != nil
+//@   ensures ok: len(b) >= 8 ==> result2 == nil && result0 == b[8:] && be64(b, 0) == inv64(cmpU(result1))
+
+//@ func EncodeUint
+//@   prop C19
+//@   replay: auto
+//@   ensures len: len(result) == len(b) + 8
+//@   ensures prefix: keeps(result, b)
+//@   ensures image: be64(result, len(b)) == v
+
+//@ func EncodeUintDesc
+//@   prop C19
+//@   replay: auto
+//@   ensures len: len(result) == len(b) + 8
+//@   ensures prefix: keeps(result, b)
+//@   ensures image: be64(result, len(b)) == inv64(v)
+
+//@ func DecodeUint
+//@   prop C19
+//@   replay: auto
+//@   safety
+//@   ensures short: len(b) < 8 ==> result2 != nil
+//@   ensures ok: len(b) >= 8 ==> result2 == nil && result0 == b[8:] && be64(b, 0) == result1
+
+//@ func DecodeUintDesc
+//@   prop C19
+//@   replay: auto
+//@   safety
+//@   ensures short: len(b) < 8 ==> result2 != nil
+//@   ensures ok: len(b) >= 8 ==> result2 == nil && result0 == b[8:] && be64(b, 0) == inv64(result1)
+
+// ---- variable width: stdlib varints (encoding/binary is an assumed inverse pair) ----------------
+
+// vlen/vbyte: the image produced by binary.PutVarint / PutUvarint, uninterpreted; the assumed contracts of
+// the four stdlib functions live in /verif/contracts/_external/binary.go.
+
+// ---- comparable varints ------------------------------------------------------------------------
+
+//@ spec func be1(b []byte, at int) uint64 { return mathint(b[at]) }
+//@ spec func be2(b []byte, at int) uint64 { return mathint(b[at])*256 + mathint(b[at+1]) }
+//@ spec func be3(b []byte, at int) uint64 { return mathint(b[at])*65536 + mathint(b[at+1])*256 + mathint(b[at+2]) }
+//@ spec func be4(b []byte, at int) uint64 { return mathint(b[at])*16777216 + mathint(b[at+1])*65536 + mathint(b[at+2])*256 + mathint(b[at+3]) }
+//@ spec func be5(b []byte, at int) uint64 { return mathint(b[at])*4294967296 + mathint(b[at+1])*16777216 + mathint(b[at+2])*65536 + mathint(b[at+3])*256 + mathint(b[at+4]) }
+//@ spec func be6(b []byte, at int) uint64 { return mathint(b[at])*1099511627776 + mathint(b[at+1])*4294967296 + mathint(b[at+2])*16777216 + mathint(b[at+3])*65536 + mathint(b[at+4])*256 + mathint(b[at+5]) }
+//@ spec func be7(b []byte, at int) uint64 { return mathint(b[at])*281474976710656 + mathint(b[at+1])*1099511627776 + mathint(b[at+2])*4294967296 + mathint(b[at+3])*16777216 + mathint(b[at+4])*65536 + mathint(b[at+5])*256 + mathint(b[at+6]) }
+//@ spec func be8(b []byte, at int) uint64 { return mathint(b[at])*72057594037927936 + mathint(b[at+1])*281474976710656 + mathint(b[at+2])*1099511627776 + mathint(b[at+3])*4294967296 + mathint(b[at+4])*16777216 + mathint(b[at+5])*65536 + mathint(b[at+6])*256 + mathint(b[at+7]) }
+
+// cuvLen(v): number of bytes of the comparable encoding of an unsigned value (format comment in number.go)
+//@ spec func cuvLen(v uint64) int { return ite(v <= 239, 1, ite(v <= 255, 2, ite(v <= 65535, 3, ite(v <= 16777215, 4, ite(v <= 4294967295, 5, ite(v <= 1099511627775, 6, ite(v <= 281474976710655, 7, ite(v <= 72057594037927935, 8, 9)))))))) }
+
+// isCUvar(b, at, v): the bytes of b starting at index at are the comparable image of v:
+// values up to 239 are the single byte v+8; larger ones are the tag 247+n followed by the n-byte big-endian value,
+// n minimal.
+//@ spec func isCUvar(b []byte, at int, v uint64) bool {
+//@   return (v <= 239 ==> mathint(b[at]) == mathint(v) + 8) &&
+//@          (v >= 240 && v <= 255 ==> b[at] == 248 && be1(b, at+1) == v) &&
+//@          (v >= 256 && v <= 65535 ==> b[at] == 249 && be2(b, at+1) == v) &&
+//@          (v >= 65536 && v <= 16777215 ==> b[at] == 250 && be3(b, at+1) == v) &&
+//@          (v >= 16777216 && v <= 4294967295 ==> b[at] == 251 && be4(b, at+1) == v) &&
+//@          (v >= 4294967296 && v <= 1099511627775 ==> b[at] == 252 && be5(b, at+1) == v) &&
+//@          (v >= 1099511627776 && v <= 281474976710655 ==> b[at] == 253 && be6(b, at+1) == v) &&
+//@          (v >= 281474976710656 && v <= 72057594037927935 ==> b[at] == 254 && be7(b, at+1) == v) &&
+//@          (v >= 72057594037927936 && v <= 18446744073709551615 ==> b[at] == 255 && be8(b, at+1) == v) }
+
+// signed: non-negative values use the unsigned image; a negative value v with n = minimal number of bytes such that
+// v >= -(256^n - 1) is the tag 8-n followed by the low n bytes of its two's complement (v + 256^n).
+//@ spec func cvLen(v int64) int { return ite(v >= 0, cuvLen(uint64(v)), ite(v >= -255, 2, ite(v >= -65535, 3, ite(v >= -16777215, 4, ite(v >= -4294967295, 5, ite(v >= -1099511627775, 6, ite(v >= -281474976710655, 7, ite(v >= -72057594037927935, 8, 9)))))))) }
+//@ spec func isCVar(b []byte, at int, v int64) bool {
+//@   return (v >= 0 ==> isCUvar(b, at, uint64(v))) &&
+//@          (v >= -255 && v <= -1 ==> b[at] == 7 && mathint(be1(b, at+1)) == mathint(v) + 256) &&
+//@          (v >= -65535 && v <= -256 ==> b[at] == 6 && mathint(be2(b, at+1)) == mathint(v) + 65536) &&
+//@          (v >= -16777215 && v <= -65536 ==> b[at] == 5 && mathint(be3(b, at+1)) == mathint(v) + 16777216) &&
+//@          (v >= -4294967295 && v <= -16777216 ==> b[at] == 4 && mathint(be4(b, at+1)) == mathint(v) + 4294967296) &&
+//@          (v >= -1099511627775 && v <= -4294967296 ==> b[at] == 3 && mathint(be5(b, at+1)) == mathint(v) + 1099511627776) &&
+//@          (v >= -281474976710655 && v <= -1099511627776 ==> b[at] == 2 && mathint(be6(b, at+1)) == mathint(v) + 281474976710656) &&
+//@          (v >= -72057594037927935 && v <= -281474976710656 ==> b[at] == 1 && mathint(be7(b, at+1)) == mathint(v) + 72057594037927936) &&
+//@          (v <= -72057594037927936 ==> b[at] == 0 && mathint(be8(b, at+1)) == mathint(v) + 18446744073709551616) }
+
+//@ func EncodeComparableUvarint
+//@   prop C19
+//@   replay: auto
+//@   ensures len: len(result) == len(b) + cuvLen(v)
+//@   ensures prefix: keeps(result, b)
+//@   ensures image: isCUvar(result, len(b), v)
+
+//@ func EncodeComparableVarint
+//@   prop C19
+//@   replay: auto
+//@   ensures len: len(result) == len(b) + cvLen(v)
+//@   ensures prefix: keeps(result, b)
+//@   ensures image: isCVar(result, len(b), v)
+
+//@ func DecodeComparableUvarint
+//@   prop C19
+//@   replay: auto
+//@   safety
+//@   loop 1 unroll 8
+//@   ensures roundtrip: forall v uint64 :: len(b) >= cuvLen(v) && isCUvar(b, 0, v) ==> result2 == nil && result1 == v && result0 == b[cuvLen(v):]
+//@   ensures empty: len(b) == 0 ==> result2 != nil
+//@   ensures badtag: len(b) > 0 && b[0] < 8 ==> result2 != nil
+//@   ensures short: len(b) > 0 && b[0] > 247 && len(b) < 1 + (mathint(b[0]) - 247) ==> result2 != nil
+//@   ensures accepted: result2 == nil ==> len(b) > 0 && b[0] >= 8 && (b[0] <= 247 ==> mathint(result1) == mathint(b[0]) - 8 && result0 == b[1:]) &&
+//@       (b[0] == 248 ==> len(b) >= 2 && result1 == be1(b, 1) && result0 == b[2:]) &&
+//@       (b[0] == 249 ==> len(b) >= 3 && result1 == be2(b, 1) && result0 == b[3:]) &&
+//@       (b[0] == 250 ==> len(b) >= 4 && result1 == be3(b, 1) && result0 == b[4:]) &&
+//@       (b[0] == 251 ==> len(b) >= 5 && result1 == be4(b, 1) && result0 == b[5:]) &&
+//@       (b[0] == 252 ==> len(b) >= 6 && result1 == be5(b, 1) && result0 == b[6:]) &&
+//@       (b[0] == 253 ==> len(b) >= 7 && result1 == be6(b, 1) && result0 == b[7:]) &&
+//@       (b[0] == 254 ==> len(b) >= 8 && result1 == be7(b, 1) && result0 == b[8:]) &&
+//@       (b[0] == 255 ==> len(b) >= 9 && result1 == be8(b, 1) && result0 == b[9:])
+
+//@ func DecodeComparableVarint
+//@   prop C19
+//@   replay: auto
+//@   safety
+//@   loop 1 unroll 8
+//@   ensures roundtrip: forall v int64 :: len(b) >= cvLen(v) && isCVar(b, 0, v) ==> result2 == nil && result1 == v && result0 == b[cvLen(v):]
+//@   ensures empty: len(b) == 0 ==> result2 != nil
+//@   ensures short: len(b) > 0 && b[0] > 247 && len(b) < 1 + (mathint(b[0]) - 247) ==> result2 != nil
+//@   ensures shortneg: len(b) > 0 && b[0] < 8 && len(b) < 1 + (8 - mathint(b[0])) ==> result2 != nil
+//@   ensures accepted: result2 == nil ==> len(b) > 0 && (b[0] >= 8 && b[0] <= 247 ==> mathint(result1) == mathint(b[0]) - 8 && result0 == b[1:]) &&
+//@       (b[0] == 248 ==> len(b) >= 2 && mathint(result1) == mathint(be1(b, 1)) && result0 == b[2:]) &&
+//@       (b[0] == 249 ==> len(b) >= 3 && mathint(result1) == mathint(be2(b, 1)) && result0 == b[3:]) &&
+//@       (b[0] == 250 ==> len(b) >= 4 && mathint(result1) == mathint(be3(b, 1)) && result0 == b[4:]) &&
+//@       (b[0] == 251 ==> len(b) >= 5 && mathint(result1) == mathint(be4(b, 1)) && result0 == b[5:]) &&
+//@       (b[0] == 252 ==> len(b) >= 6 && mathint(result1) == mathint(be5(b, 1)) && result0 == b[6:]) &&
+//@       (b[0] == 253 ==> len(b) >= 7 && mathint(result1) == mathint(be6(b, 1)) && result0 == b[7:]) &&
+//@       (b[0] == 254 ==> len(b) >= 8 && mathint(result1) == mathint(be7(b, 1)) && result0 == b[8:]) &&
+//@       (b[0] == 255 ==> len(b) >= 9 && mathint(result1) == mathint(be8(b, 1)) && result0 == b[9:]) &&
+//@       (b[0] == 7 ==> len(b) >= 2 && mathint(result1) == mathint(be1(b, 1)) - 256 && result0 == b[2:]) &&
+//@       (b[0] == 6 ==> len(b) >= 3 && mathint(result1) == mathint(be2(b, 1)) - 65536 && result0 == b[3:]) &&
+//@       (b[0] == 5 ==> len(b) >= 4 && mathint(result1) == mathint(be3(b, 1)) - 16777216 && result0 == b[4:]) &&
+//@       (b[0] == 4 ==> len(b) >= 5 && mathint(result1) == mathint(be4(b, 1)) - 4294967296 && result0 == b[5:]) &&
+//@       (b[0] == 3 ==> len(b) >= 6 && mathint(result1) == mathint(be5(b, 1)) - 1099511627776 && result0 == b[6:]) &&
+//@       (b[0] == 2 ==> len(b) >= 7 && mathint(result1) == mathint(be6(b, 1)) - 281474976710656 && result0 == b[7:]) &&
+//@       (b[0] == 1 ==> len(b) >= 8 && mathint(result1) == mathint(be7(b, 1)) - 72057594037927936 && result0 == b[8:]) &&
+//@       (b[0] == 0 ==> len(b) >= 9 && mathint(result1) == mathint(be8(b, 1)) - 18446744073709551616 && result0 == b[9:])
